@@ -116,7 +116,7 @@ theorem C11_set_archive_never_undefined (cfg : Cfg) (hf : cfg.allFixed) (s : RS)
     Full statement wanted: `SafeW cfg (readVars cfg fuel specs s)` outright.  Proved: given that the value reader
     (`ScriptVariable::ArchiveInternal`, `readValue`) is safe from every such state.  Missing: that premise — the safety
     of `readValue` on arbitrary bytes (14 kinds, nested; it needs the fuel of the model to be tied to the unread length
-    and the switch `arraySizeChecked`, which is **off** in the current tree: F12) — is not proved; it is exercised by
+    and the switch `arraySizeChecked`, read from the source: on since fix 9cb14ec, F12) — is not proved; it is exercised by
     the differential run (payload, count, kind and flag bytes of every value kind are damaged there). -/
 theorem C11_variable_list_never_undefined_partial (cfg : Cfg) (hf : cfg.allFixed) (fuel : Nat)
     (hrv : ∀ l sup s, InvW cfg s → SafeW cfg (readValue cfg fuel l sup s)) (specs : List (Lbl × Supply)) (s : RS)
